@@ -548,6 +548,7 @@ func init() {
 				if !ok || u.Decl == nil {
 					continue
 				}
+				body, u, _ = c.followForwarder(body, u)
 				info := u.Pkg.TypesInfo
 				// the slice built from the rest arguments: appended to inside a loop over args.Cells[k:]
 				var allowed types.Object
